@@ -488,7 +488,7 @@ pub fn run(pc: &PropCtx) {
         check_cli,
     );
     if pc.tier == Tier::Thorough {
-        pc.run_fuzz("C03:random", 500_000, 5000, &|v| replay(pc, "random", v).unwrap_or(Verdict::Reject("unreadable")));
+        pc.run_fuzz("C03:random", 300_000, 5000, &|v| replay(pc, "random", v).unwrap_or(Verdict::Reject("unreadable")));
     }
 }
 
